@@ -88,22 +88,17 @@ def hdrWindow (ws : List String) : String :=
       match ns.toNat? with
       | some n =>
         if n = 0 then "bad-op" else
-        let hs := List.replicate n h0
-        -- idx starts at -1, constructor rotates once
-        let step := fun (st : Option (List Hist × Nat)) (op : String) =>
+        let step := fun (st : Option Win) (op : String) =>
           match st with
           | none => none
-          | some (hs, idx) =>
-            if op == "rot" then
-              let idx := idx + 1
-              some (hs.modify (idx % n) (fun _ => h0), idx)
+          | some w =>
+            if op == "rot" then some w.rotate
             else match (op.drop 1).toInt? with
-              | some v => some (hs.modify (idx % n) (fun h => (recordValue h v).getD h), idx)
+              | some v => some (w.record v)
               | none => none
-        match ops.foldl step (some (hs, 0)) with
-        | some (hs, _) =>
-          let (m, dropped) := hs.foldl (fun (acc : Hist × Int) h =>
-            let (m, d) := merge acc.1 h; (m, acc.2 + d)) (h0, 0)
+        match ops.foldl step (some (Win.new n h0)) with
+        | some w =>
+          let (m, dropped) := w.merge
           s!"dropped={dropped} {histLine m}"
         | none => "bad-op"
       | none => "bad-op"
